@@ -259,21 +259,32 @@ def check_linear(c):
                       'func_int_full does not scale', tags)
         # equivalent argument forms: bounds as lists / arrays / NumPy scalars, points as lists, Fortran-ordered / integer-typed cores
         res.ev()
-        okf = True
+        bad = []
         g0 = teneva.func_get(X, A, a, b)
-        for af, bf_ in (([a] * d, [b] * d), (np.array([a] * d), np.array([b] * d)), (np.float64(a), np.float64(b)), ([a] * d, b)):
-            okf = okf and np.array_equal(teneva.func_get(X, A, af, bf_), g0)
-        okf = okf and np.array_equal(teneva.func_get(X.tolist(), A, a, b), g0) and np.array_equal(teneva.func_get(np.asfortranarray(X), [np.asfortranarray(G) for G in A], a, b), g0)
-        okf = okf and abs(teneva.func_sum(A, [a] * d, np.array([b] * d)) - sv) <= 1e-14 * (1 + abs(sv))
+        gt = 1e-13 * (1 + np.abs(g0).max())
+        for nm, (af, bf_) in (('lists', ([a] * d, [b] * d)), ('arrays', (np.array([a] * d), np.array([b] * d))), ('np.float64', (np.float64(a), np.float64(b))), ('list+scalar', ([a] * d, b))):
+            if not np.array_equal(teneva.func_get(X, A, af, bf_), g0):
+                bad.append('bounds as ' + nm)
+        if not np.array_equal(teneva.func_get(X.tolist(), A, a, b), g0):
+            bad.append('points as lists')
+        # another memory layout of the same numbers may change the order of the floating-point sums inside BLAS / einsum: rounding level only
+        if np.abs(teneva.func_get(np.asfortranarray(X), [np.asfortranarray(G) for G in A], a, b) - g0).max() > gt:
+            bad.append('Fortran-ordered points and cores')
+        if abs(teneva.func_sum(A, [a] * d, np.array([b] * d)) - sv) > 1e-13 * (1 + abs(sv)) + T * (b - a) ** d:
+            bad.append('func_sum with list / array bounds')
         Zf = teneva.func_gets(A, [3] * d)
         Zg = teneva.func_gets(A, 3.0)
         Zh = teneva.func_gets(A, np.array([3] * d))
-        okf = okf and ref.core_bytes(Zf) == ref.core_bytes(Zg) == ref.core_bytes(Zh)
+        if not ref.core_bytes(Zf) == ref.core_bytes(Zg) == ref.core_bytes(Zh):
+            bad.append('grid size as list / float / array')
         ci = [np.round(G * 4).astype(np.int64) for G in cores]
         cf = [np.round(G * 4) for G in cores]
-        okf = okf and all(np.abs(x - y_).max() <= 1e-13 * (1 + np.abs(y_).max()) for x, y_ in zip(teneva.func_int(ci), teneva.func_int(cf)))
-        okf = okf and np.abs(teneva.func_int_full(ref.dense(cf).astype(np.int64)) - teneva.func_int_full(ref.dense(cf))).max() <= 1e-12 * (1 + np.abs(ref.dense(cf)).max())
-        res.check(bool(okf), 'forms', case, 'an equivalent form of the bounds / points / grid size / core dtype changes the result', tags)
+        if all(np.abs(G).max() < 2.0 ** 52 for G in cf) and not all(np.abs(x - y_).max() <= 1e-13 * (1 + np.abs(y_).max()) for x, y_ in zip(teneva.func_int(ci), teneva.func_int(cf))):
+            bad.append('integer-typed cores')
+        if np.abs(ref.dense(cf)).max() < 2.0 ** 52 and \
+                np.abs(teneva.func_int_full(ref.dense(cf).astype(np.int64)) - teneva.func_int_full(ref.dense(cf))).max() > 1e-12 * (1 + np.abs(ref.dense(cf)).max()):
+            bad.append('integer-typed dense values')
+        res.check(not bad, 'forms', case, lambda: 'an equivalent form changes the result: ' + ', '.join(bad), tags)
         # additivity / homogeneity of the coefficient transform
         A2 = teneva.func_int([2.5 * cores[0]] + cores[1:])
         res.check(np.abs(ref.dense(A2) - 2.5 * ref.dense(A)).max() <= T, 'linear.homogeneous', case, 'func_int not homogeneous', tags)
